@@ -25,8 +25,11 @@ Blocks(n) == (n + BS - 1) \div BS
 Range(f) == {f[i] : i \in 1..Len(f)}
 
 (* inode number -> decoded inode *)
+(* (large snapshots carry ipos, the position of every inode number in S.inodes: the search below is quadratic) *)
 IMap(S) == LET I == 1..Len(S.inodes) IN
-           [x \in {S.inodes[k].inum : k \in I} |-> S.inodes[CHOOSE k \in I : S.inodes[k].inum = x]]
+           IF "ipos" \in DOMAIN S /\ Len(S.ipos) > 0
+           THEN [x \in {S.inodes[k].inum : k \in I} |-> S.inodes[S.ipos[x + 1]]]
+           ELSE [x \in {S.inodes[k].inum : k \in I} |-> S.inodes[CHOOSE k \in I : S.inodes[k].inum = x]]
 DMap(S) == LET I == 1..Len(S.dirs) IN
            [x \in {S.dirs[k].inum : k \in I} |-> S.dirs[CHOOSE k \in I : S.dirs[k].inum = x]]
 
@@ -38,8 +41,9 @@ Top(in) == SMax(Blocks(in.size), in.ssz)
 PtrsOf(in) == {in.data[j][2] : j \in 1..Len(in.data)} \cup {in.ind[j][1] : j \in 1..Len(in.ind)}
 NPtrs(in) == Len(in.data) + Len(in.ind)
 
-RECURSIVE SumN(_, _)
-SumN(S, k) == IF k = 0 THEN 0 ELSE NPtrs(S.inodes[k]) + SumN(S, k - 1)
+(* number of pointers of the first k inodes, as the number of pointer occurrences <<inode index, list, position>> *)
+(* (a recursive sum is quadratic in TLC for tens of thousands of inodes)                                          *)
+SumN(S, k) == Cardinality(UNION {{<<i, 1, j>> : j \in 1..Len(S.inodes[i].data)} \cup {<<i, 2, j>> : j \in 1..Len(S.inodes[i].ind)} : i \in 1..k})
 
 Owned(S) == UNION {PtrsOf(S.inodes[k]) : k \in 1..Len(S.inodes)}
 
@@ -86,8 +90,11 @@ TreeRules(S) ==
   LET D == DMap(S)
       M == IMap(S)
       live == Live(S)
-      refs == [x \in live |-> Cardinality({<<d, j>> \in UNION {{<<dd, jj>> : jj \in Ents(D[dd])} : dd \in DOMAIN D} :
-                                           D[d].slots[j].inum = x})]
+      (* every entry <<directory, slot index>>, the inodes they name; "exactly one name" without counting per inode: *)
+      (* no inode other than the root is named by two entries iff there are as many such entries as inodes named    *)
+      P == UNION {{<<dd, jj>> : jj \in Ents(D[dd])} : dd \in DOMAIN D}
+      named == {D[p[1]].slots[p[2]].inum : p \in P}
+      twice == Cardinality({p \in P : D[p[1]].slots[p[2]].inum # 1}) # Cardinality(named \ {1})
       dot(d, nm) == {j \in 1..Len(D[d].slots) : D[d].slots[j].name = nm}
       parentOK(d) == \/ d = 1 /\ \A j \in dot(d, "..") : D[d].slots[j].inum = 1
                      \/ d # 1 /\ \A j \in dot(d, "..") :
@@ -95,8 +102,8 @@ TreeRules(S) ==
                           p \in DOMAIN D /\ \E q \in Ents(D[p]) : D[p].slots[q].inum = d
   IN SFail(1 \notin live \/ 1 \notin DOMAIN D, "C04:no-root-directory")
      \o SFail(\E d \in DOMAIN D : \E j \in Ents(D[d]) : D[d].slots[j].inum \notin live, "C04:entry-names-a-free-inode")
-     \o SFail(\E x \in live \ {1} : refs[x] # 1, "C04:live-object-without-exactly-one-name")
-     \o SFail(1 \in live /\ refs[1] # 0, "C04:root-has-a-name")
+     \o SFail(twice \/ ~((live \ {1}) \subseteq named), "C04:live-object-without-exactly-one-name")
+     \o SFail(1 \in live /\ 1 \in named, "C04:root-has-a-name")
      \o SFail(1 \in DOMAIN D /\ Reach(D, {1}, {1}, 300) # live, "C04:objects-not-reachable-from-root")
      \o SFail(\E d \in DOMAIN D : Cardinality(dot(d, ".")) # 1 \/ Cardinality(dot(d, "..")) # 1
                 \/ \E j \in dot(d, ".") : D[d].slots[j].inum # d \/ D[d].slots[j].slot # 0
@@ -145,12 +152,14 @@ StructRules(S) ==
 
 (* what a failed operation must leave unchanged: everything except the caches' LRU order *)
 (* an entry (name, inode) that is in directory d in both snapshots sits in the same slot *)
+(* (names are unique within a directory: an entry common to both has one slot in each, so it moved iff fewer    *)
+(* <<name, inode, slot>> triples than <<name, inode>> pairs are common)                                          *)
 EntryMoved(D1, D2) ==
   \E a \in 1..Len(D1), b \in 1..Len(D2) :
      /\ D1[a].inum = D2[b].inum
-     /\ \E x \in 1..Len(D1[a].slots), y \in 1..Len(D2[b].slots) :
-          /\ D1[a].slots[x].inum # 0 /\ D1[a].slots[x].inum = D2[b].slots[y].inum
-          /\ D1[a].slots[x].name = D2[b].slots[y].name /\ D1[a].slots[x].slot # D2[b].slots[y].slot
+     /\ LET T(d) == {<<d.slots[x].name, d.slots[x].inum, d.slots[x].slot>> : x \in {y \in 1..Len(d.slots) : d.slots[y].inum # 0}}
+            K(d) == {<<d.slots[x].name, d.slots[x].inum>> : x \in {y \in 1..Len(d.slots) : d.slots[y].inum # 0}}
+        IN Cardinality(K(D1[a]) \cap K(D2[b])) # Cardinality(T(D1[a]) \cap T(D2[b]))
 Frame(S) == [bbm |-> S.bbm, ibm |-> S.ibm, inodes |-> S.inodes, dirs |-> S.dirs, nonzero |-> S.nonzero,
              balloc |-> S.balloc, ialloc |-> S.ialloc]
 =============================================================================
